@@ -1,5 +1,995 @@
+//! WORLD engine (DESIGN.md §3.1): histories of API operations over contexts, binding sets and
+//! client threads, under a simulated wall clock and simulator-chosen hash keys.
+//!
+//! One run = one explicit operation list.  Every client is a real OS thread with default stack
+//! size whose hash keys the case fixes; exactly one thread is runnable at any instant (the
+//! scheduler hands an operation to a client over a channel and waits for the reply), so the
+//! order of whole operations is the case's order and nothing else.  The reference model never
+//! evaluates CEL: it stores, per context, name -> (source, compile instant) and, per binding
+//! set, name -> value, and decides by comparing the real execution with a *fresh twin* built
+//! from the model on a freshly spawned thread with other hash keys.
+
+pub mod gen;
+
+use crate::engine::*;
+use crate::prng::fnv;
+use crate::seams;
+use crate::val::{Class, Outcome, V};
+use rscel::{BindContext, CelContext, Program};
+use serde::{Deserialize, Serialize};
 use serde_json::Value as J;
+use std::collections::{BTreeMap, BTreeSet};
+use std::sync::mpsc;
+use std::sync::{Arc, Mutex};
+
+#[derive(Clone, Copy, PartialEq, Eq, Debug)]
+pub enum WorldProp {
+    C09,
+    C11,
+    C12,
+}
+
+impl WorldProp {
+    pub fn id(self) -> &'static str {
+        match self {
+            WorldProp::C09 => "C09",
+            WorldProp::C11 => "C11",
+            WorldProp::C12 => "C12",
+        }
+    }
+}
+
+#[derive(Clone, Debug, Serialize, Deserialize, PartialEq)]
+pub enum OpK {
+    NewCtx { c: usize },
+    CloneCtx { from: usize, to: usize },
+    DropCtx { c: usize },
+    /// add_program_str (new or replacing); `must_read`: the generator knows that every
+    /// evaluation of this text reaches now()/timestamp() (C09 oracle c)
+    Add { c: usize, name: String, src: String, #[serde(default)] must_read: bool },
+    /// Program::from_source on the client's thread, then add_program(clone)
+    AddShared { c: usize, name: String, src: String },
+    NewB { b: usize },
+    CloneB { from: usize, to: usize },
+    Bind { b: usize, name: String, val: V },
+    BindJson { b: usize, vals: BTreeMap<String, V> },
+    /// bind a simulator-owned function that ignores its arguments and returns `ret`
+    BindFunc { b: usize, name: String, ret: V },
+    /// exec `times` times; the twin runs on a fresh thread with `keys`; `minimal`: the twin
+    /// context holds only the programs reachable from `name`
+    Exec { c: usize, name: String, b: usize, times: u8, keys: [u8; 16], minimal: bool },
+    /// set the simulated wall clock (absolute, so that dropping operations keeps meaning)
+    Clock { ns: i64 },
+    /// C12: expectation supplied by the scenario generator for the next observations of
+    /// exec(c, name, b): Some(value) or None = "must be a failure"
+    Expect { c: usize, name: String, b: usize, keys: [u8; 16], want: Want },
+}
+
+#[derive(Clone, Debug, Serialize, Deserialize, PartialEq)]
+pub enum Want {
+    Val(V),
+    /// any failure (an error result), but the process must survive
+    Fail,
+    /// a value or a failure, never a dead process, never a value other than this one
+    ValOrFail(V),
+    /// some type value (the name resolved to the built-in type, not to a variable or program)
+    AnyType,
+}
+
+#[derive(Clone, Debug, Serialize, Deserialize, PartialEq)]
+pub struct Op {
+    pub t: usize,
+    pub k: OpK,
+}
+
+#[derive(Clone, Debug, Serialize, Deserialize)]
+pub struct WorldCase {
+    pub world: String,
+    /// hash keys of each client thread
+    pub clients: Vec<[u8; 16]>,
+    pub start_ns: i64,
+    /// scenario label (C12) used in signatures and the finding key
+    #[serde(default)]
+    pub label: String,
+    pub ops: Vec<Op>,
+}
 
 pub fn case_skeleton(case: &J) -> String {
-    case.get("skeleton").and_then(|s| s.as_str()).unwrap_or("world").to_string()
+    match serde_json::from_value::<WorldCase>(case.clone()) {
+        Ok(c) => {
+            let mut s = c.label.clone();
+            s.push('/');
+            for o in c.ops.iter() {
+                s.push(match &o.k {
+                    OpK::NewCtx { .. } => 'N',
+                    OpK::CloneCtx { .. } => 'C',
+                    OpK::DropCtx { .. } => 'D',
+                    OpK::Add { .. } => 'A',
+                    OpK::AddShared { .. } => 'S',
+                    OpK::NewB { .. } => 'n',
+                    OpK::CloneB { .. } => 'c',
+                    OpK::Bind { .. } => 'b',
+                    OpK::BindJson { .. } => 'j',
+                    OpK::BindFunc { .. } => 'f',
+                    OpK::Exec { .. } => 'X',
+                    OpK::Clock { .. } => 'T',
+                    OpK::Expect { .. } => 'E',
+                });
+            }
+            s
+        }
+        Err(_) => "world".into(),
+    }
+}
+
+// ---------------------------------------------------------------------------------------------
+// client threads
+// ---------------------------------------------------------------------------------------------
+
+type Ctxs = Arc<Mutex<BTreeMap<usize, CelContext>>>;
+
+#[derive(Debug, Default)]
+struct Reply {
+    /// the operation referred to an object that does not exist (or is owned by another
+    /// thread): nothing was done
+    skipped: bool,
+    add_err: Option<(Class, String)>,
+    /// per exec: outcome, clock reads during it
+    execs: Vec<(Outcome, u64)>,
+    /// C09 oracle d: bytecode dump of the same text compiled at a different instant on the
+    /// same thread differs from the stored program's dump
+    bc_differs_across_instants: Option<(String, String)>,
+    /// name -> (source, digest of bytecode dump) for every live context and universe name
+    ctxs: BTreeMap<usize, BTreeMap<String, (String, u64)>>,
+    /// binding sets of this thread: name -> (value, is_bound)
+    binds: BTreeMap<usize, BTreeMap<String, (Option<V>, bool)>>,
+}
+
+enum Req {
+    Do(OpK),
+    Quit,
+}
+
+fn lock(c: &Ctxs) -> std::sync::MutexGuard<'_, BTreeMap<usize, CelContext>> {
+    c.lock().unwrap_or_else(|e| e.into_inner())
+}
+
+fn to_json(v: &V) -> serde_json::Value {
+    use serde_json::json;
+    match v {
+        V::Int(i) => json!(i),
+        V::UInt(u) => json!(u),
+        V::F(b) => json!(f64::from_bits(*b)),
+        V::Bool(b) => json!(b),
+        V::Str(s) => json!(s),
+        V::List(l) => serde_json::Value::Array(l.iter().map(to_json).collect()),
+        V::Map(m) => serde_json::Value::Object(m.iter().map(|(k, v)| (k.clone(), to_json(v))).collect()),
+        _ => serde_json::Value::Null,
+    }
+}
+
+/// values that survive JSON unchanged (no uint/bytes/timestamps; ints stay ints)
+pub fn json_safe(v: &V) -> bool {
+    match v {
+        V::Int(_) | V::Bool(_) | V::Str(_) | V::Null => true,
+        V::List(l) => l.iter().all(json_safe),
+        V::Map(m) => m.values().all(json_safe),
+        _ => false,
+    }
+}
+
+/// a simulator-owned function answering with a constant (leaked: a handful per run)
+fn const_func(ret: V) -> &'static rscel::RsCelFunction {
+    // `Other("arg0")` stands for the identity function (answers with its first argument)
+    let identity = ret == V::Other("arg0".into());
+    Box::leak(Box::new(move |_this: rscel::CelValue, args: Vec<rscel::CelValue>| -> rscel::CelValue {
+        if identity {
+            args.into_iter().next().unwrap_or_else(rscel::CelValue::from_null)
+        } else {
+            ret.to_cel()
+        }
+    }))
+}
+
+fn guarded_exec(ctx: &mut CelContext, name: &str, b: &BindContext) -> (Outcome, u64) {
+    let before = seams::clock_reads();
+    let r = std::panic::catch_unwind(std::panic::AssertUnwindSafe(|| ctx.exec(name, b)));
+    let reads = seams::clock_reads() - before;
+    let o = match r {
+        Ok(r) => Outcome::from_result(&r),
+        Err(_) => Outcome::Panic("panic".into()),
+    };
+    (o, reads)
+}
+
+fn snapshot_ctxs(ctxs: &BTreeMap<usize, CelContext>, universe: &[String]) -> BTreeMap<usize, BTreeMap<String, (String, u64)>> {
+    let mut out = BTreeMap::new();
+    for (id, c) in ctxs.iter() {
+        let mut m = BTreeMap::new();
+        for n in universe {
+            if let Some(p) = c.get_program(n) {
+                m.insert(n.clone(), (p.source().unwrap_or("").to_string(), fnv(p.dumps_bc().as_bytes())));
+            }
+        }
+        out.insert(*id, m);
+    }
+    out
+}
+
+fn client_main(keys: [u8; 16], ctxs: Ctxs, universe: Vec<String>, c09: bool, rx: mpsc::Receiver<Req>, tx: mpsc::Sender<Reply>) {
+    seams::set_thread_hash_keys(keys);
+    let mut binds: BTreeMap<usize, BindContext<'static>> = BTreeMap::new();
+    while let Ok(Req::Do(op)) = rx.recv() {
+        let mut rep = Reply::default();
+        {
+            let mut cs = lock(&ctxs);
+            match op {
+                OpK::NewCtx { c } => {
+                    cs.insert(c, CelContext::new());
+                }
+                OpK::CloneCtx { from, to } => match cs.get(&from) {
+                    Some(x) => {
+                        let y = x.clone();
+                        cs.insert(to, y);
+                    }
+                    None => rep.skipped = true,
+                },
+                OpK::DropCtx { c } => {
+                    if cs.remove(&c).is_none() {
+                        rep.skipped = true;
+                    }
+                }
+                OpK::Add { c, name, src, .. } => match cs.get_mut(&c) {
+                    Some(x) => {
+                        let r = std::panic::catch_unwind(std::panic::AssertUnwindSafe(|| x.add_program_str(&name, &src)));
+                        match r {
+                            Ok(Ok(())) => {
+                                if c09 {
+                                    // same text, same thread, another instant: the compiled
+                                    // program must not depend on when it was compiled
+                                    let here = seams::clock_now();
+                                    seams::clock_set(here.wrapping_add(86_400_000_000_123));
+                                    let other = std::panic::catch_unwind(|| Program::from_source(&src).map(|p| p.dumps_bc()).unwrap_or_default())
+                                        .unwrap_or_else(|_| "<panic while compiling>".into());
+                                    seams::clock_set(here);
+                                    let mine = x.get_program(&name).map(|p| p.dumps_bc()).unwrap_or_default();
+                                    if mine != other {
+                                        rep.bc_differs_across_instants = Some((mine, other));
+                                    }
+                                }
+                            }
+                            Ok(Err(e)) => rep.add_err = Some((Class::of(&e), e.to_string())),
+                            Err(_) => rep.add_err = Some((Class::Internal, "panic while compiling".into())),
+                        }
+                    }
+                    None => rep.skipped = true,
+                },
+                OpK::AddShared { c, name, src } => match cs.get_mut(&c) {
+                    Some(x) => match std::panic::catch_unwind(|| Program::from_source(&src)) {
+                        Ok(Ok(p)) => {
+                            x.add_program(&name, p.clone());
+                            drop(p);
+                        }
+                        Ok(Err(e)) => rep.add_err = Some((Class::of(&e), e.to_string())),
+                        Err(_) => rep.add_err = Some((Class::Internal, "panic while compiling".into())),
+                    },
+                    None => rep.skipped = true,
+                },
+                OpK::NewB { b } => {
+                    binds.insert(b, BindContext::new());
+                }
+                OpK::CloneB { from, to } => match binds.get(&from) {
+                    Some(x) => {
+                        let y = x.clone();
+                        binds.insert(to, y);
+                    }
+                    None => rep.skipped = true,
+                },
+                OpK::Bind { b, name, val } => match binds.get_mut(&b) {
+                    Some(x) => x.bind_param(&name, val.to_cel()),
+                    None => rep.skipped = true,
+                },
+                OpK::BindJson { b, vals } => match binds.get_mut(&b) {
+                    Some(x) => {
+                        let obj = serde_json::Value::Object(vals.iter().map(|(k, v)| (k.clone(), to_json(v))).collect());
+                        let jv: rscel::serde_json::Value = rscel::serde_json::from_str(&obj.to_string()).expect("json");
+                        if let Err(e) = x.bind_params_from_json_obj(jv) {
+                            rep.add_err = Some((Class::of(&e), e.to_string()));
+                        }
+                    }
+                    None => rep.skipped = true,
+                },
+                OpK::BindFunc { b, name, ret } => match binds.get_mut(&b) {
+                    Some(x) => x.bind_func(&name, const_func(ret)),
+                    None => rep.skipped = true,
+                },
+                OpK::Exec { c, name, b, times, .. } => match (cs.get_mut(&c), binds.get(&b)) {
+                    (Some(x), Some(bb)) => {
+                        for _ in 0..times.max(1) {
+                            rep.execs.push(guarded_exec(x, &name, bb));
+                        }
+                    }
+                    _ => rep.skipped = true,
+                },
+                OpK::Expect { c, name, b, .. } => match (cs.get_mut(&c), binds.get(&b)) {
+                    (Some(x), Some(bb)) => rep.execs.push(guarded_exec(x, &name, bb)),
+                    _ => rep.skipped = true,
+                },
+                OpK::Clock { ns } => seams::clock_set(ns),
+            }
+            rep.ctxs = snapshot_ctxs(&cs, &universe);
+        }
+        for (id, b) in binds.iter() {
+            let mut m = BTreeMap::new();
+            for n in universe.iter() {
+                let v = b.get_param(n).map(V::from_cel);
+                let ib = b.is_bound(n);
+                if v.is_some() || ib {
+                    m.insert(n.clone(), (v, ib));
+                }
+            }
+            rep.binds.insert(*id, m);
+        }
+        if tx.send(rep).is_err() {
+            break;
+        }
+    }
+}
+
+// ---------------------------------------------------------------------------------------------
+// reference model
+// ---------------------------------------------------------------------------------------------
+
+#[derive(Clone, Debug, PartialEq)]
+struct ProgSnap {
+    src: String,
+    add_ns: i64,
+    bc: u64,
+}
+
+#[derive(Default)]
+struct ModelW {
+    ctxs: BTreeMap<usize, BTreeMap<String, ProgSnap>>,
+    /// binding set -> (owner thread, params)
+    binds: BTreeMap<usize, (usize, BTreeMap<String, V>)>,
+    /// binding set -> bound functions (name -> constant answer)
+    funcs: BTreeMap<usize, BTreeMap<String, V>>,
+}
+
+pub fn idents(src: &str) -> BTreeSet<String> {
+    let mut out = BTreeSet::new();
+    let b = src.as_bytes();
+    let mut i = 0;
+    while i < b.len() {
+        if b[i].is_ascii_alphabetic() || b[i] == b'_' {
+            let s = i;
+            while i < b.len() && (b[i].is_ascii_alphanumeric() || b[i] == b'_') {
+                i += 1;
+            }
+            out.insert(src[s..i].to_string());
+        } else {
+            i += 1;
+        }
+    }
+    out
+}
+
+/// programs reachable from `name` through identifier occurrences (an over-approximation of
+/// the reference graph: an identifier inside a string literal also counts)
+fn reachable(progs: &BTreeMap<String, ProgSnap>, name: &str) -> BTreeSet<String> {
+    let mut seen = BTreeSet::new();
+    let mut todo = vec![name.to_string()];
+    while let Some(n) = todo.pop() {
+        if !seen.insert(n.clone()) {
+            continue;
+        }
+        if let Some(p) = progs.get(&n) {
+            for id in idents(&p.src) {
+                if progs.contains_key(&id) && !seen.contains(&id) {
+                    todo.push(id);
+                }
+            }
+        }
+    }
+    seen.retain(|n| progs.contains_key(n));
+    seen
+}
+
+fn reaches_clock(progs: &BTreeMap<String, ProgSnap>, reach: &BTreeSet<String>) -> bool {
+    reach.iter().any(|n| {
+        let ids = idents(&progs[n].src);
+        ids.contains("now") || ids.contains("timestamp")
+    })
+}
+
+struct TwinOut {
+    compile_err: Option<String>,
+    outcome: Option<Outcome>,
+}
+
+/// the fresh twin: new thread, new hash keys, new context and bindings built from the model
+fn run_twin(
+    keys: [u8; 16],
+    progs: Vec<(String, String, i64)>,
+    params: BTreeMap<String, V>,
+    funcs: BTreeMap<String, V>,
+    name: String,
+    exec_ns: i64,
+    compile_at_add_instant: bool,
+) -> TwinOut {
+    let restore = seams::clock_now();
+    let h = std::thread::spawn(move || {
+        seams::set_thread_hash_keys(keys);
+        let mut ctx = CelContext::new();
+        for (n, src, add_ns) in progs.iter() {
+            seams::clock_set(if compile_at_add_instant { *add_ns } else { exec_ns });
+            let r = std::panic::catch_unwind(std::panic::AssertUnwindSafe(|| ctx.add_program_str(n, src)));
+            match r {
+                Ok(Ok(())) => {}
+                Ok(Err(e)) => return TwinOut { compile_err: Some(format!("{}: {}", n, e)), outcome: None },
+                Err(_) => return TwinOut { compile_err: Some(format!("{}: panic", n)), outcome: None },
+            }
+        }
+        seams::clock_set(exec_ns);
+        let mut b = BindContext::new();
+        for (k, v) in params.iter() {
+            b.bind_param(k, v.to_cel());
+        }
+        for (k, v) in funcs.iter() {
+            b.bind_func(k, const_func(v.clone()));
+        }
+        let (o, _) = guarded_exec(&mut ctx, &name, &b);
+        TwinOut { compile_err: None, outcome: Some(o) }
+    });
+    let r = h.join().unwrap_or(TwinOut { compile_err: Some("twin thread died".into()), outcome: None });
+    seams::clock_set(restore);
+    r
+}
+
+fn kind_of(o: &Outcome) -> &'static str {
+    match o {
+        Outcome::Val(_) => "value",
+        Outcome::Fail(..) => "failure",
+        Outcome::Panic(_) => "panic",
+    }
+}
+
+fn viol(oracle: &str, sub: &str, expected: String, observed: String, detail: String) -> ViolationRec {
+    ViolationRec { oracle: oracle.into(), signature: format!("{}:{}", oracle, sub), expected, observed, detail }
+}
+
+// ---------------------------------------------------------------------------------------------
+// one run
+// ---------------------------------------------------------------------------------------------
+
+pub fn universe_of(case: &WorldCase) -> Vec<String> {
+    let mut u: BTreeSet<String> = BTreeSet::new();
+    for o in case.ops.iter() {
+        match &o.k {
+            OpK::Add { name, src, .. } | OpK::AddShared { name, src, .. } => {
+                u.insert(name.clone());
+                for i in idents(src) {
+                    u.insert(i);
+                }
+            }
+            OpK::Bind { name, .. } | OpK::BindFunc { name, .. } => {
+                u.insert(name.clone());
+            }
+            OpK::BindJson { vals, .. } => {
+                for k in vals.keys() {
+                    u.insert(k.clone());
+                }
+            }
+            _ => {}
+        }
+    }
+    u.into_iter().collect()
+}
+
+pub fn run_case(prop: WorldProp, case: &WorldCase) -> RunResult {
+    let mut stats = RunStats::default();
+    let mut fired: BTreeMap<String, u64> = BTreeMap::new();
+    let mut fire = |fired: &mut BTreeMap<String, u64>, k: &str| *fired.entry(k.to_string()).or_insert(0) += 1;
+    let universe = universe_of(case);
+    let ctxs: Ctxs = Arc::new(Mutex::new(BTreeMap::new()));
+    seams::clock_set(case.start_ns);
+
+    let mut chans: Vec<(mpsc::Sender<Req>, mpsc::Receiver<Reply>, std::thread::JoinHandle<()>)> = vec![];
+    for keys in case.clients.iter() {
+        let (tx, rx) = mpsc::channel::<Req>();
+        let (rtx, rrx) = mpsc::channel::<Reply>();
+        let (k, c, u) = (*keys, ctxs.clone(), universe.clone());
+        let c09 = prop == WorldProp::C09;
+        let h = std::thread::spawn(move || client_main(k, c, u, c09, rx, rtx));
+        chans.push((tx, rrx, h));
+    }
+    fire(&mut fired, "client_thread_spawned");
+    *fired.get_mut("client_thread_spawned").unwrap() = case.clients.len() as u64;
+
+    let mut model = ModelW::default();
+    let mut violation: Option<ViolationRec> = None;
+    let mut last_exec_thread: BTreeMap<usize, usize> = BTreeMap::new();
+    let mut clock_total: u64 = 0;
+    let mut states: Vec<u64> = vec![];
+    let mut silent: Option<String> = None;
+    let mut dkey = String::new();
+
+    'ops: for (i, op) in case.ops.iter().enumerate() {
+        if op.t >= chans.len() {
+            continue;
+        }
+        // ownership of binding sets is part of the model: an operation on a binding set from
+        // a thread that does not own it cannot be expressed with the real API (BindContext is
+        // not Send) and is skipped
+        let now_ns = seams::clock_now();
+        let (tx, rrx, _) = &chans[op.t];
+        if tx.send(Req::Do(op.k.clone())).is_err() {
+            violation = Some(viol("process-survives", "client-thread-died", "the client thread serves the operation".into(), "client thread gone".into(), format!("op {}", i)));
+            break;
+        }
+        let rep = match rrx.recv() {
+            Ok(r) => r,
+            Err(_) => {
+                violation = Some(viol("process-survives", "client-thread-died", "the operation returns".into(), "the client thread died during the operation".into(), format!("op {} {:?}", i, op.k)));
+                break;
+            }
+        };
+        stats.ops += 1;
+        if rep.skipped {
+            fire(&mut fired, "op_skipped_invalid");
+            continue;
+        }
+        // ---- model transition + per-op oracles
+        match &op.k {
+            OpK::NewCtx { c } => {
+                model.ctxs.insert(*c, BTreeMap::new());
+            }
+            OpK::CloneCtx { from, to } => {
+                if let Some(m) = model.ctxs.get(from).cloned() {
+                    let mut m = m;
+                    // bytecode digests of the clone are read from the clone itself
+                    if let Some(obs) = rep.ctxs.get(to) {
+                        for (n, s) in m.iter_mut() {
+                            if let Some((_, bc)) = obs.get(n) {
+                                s.bc = *bc;
+                            }
+                        }
+                    }
+                    model.ctxs.insert(*to, m);
+                    fire(&mut fired, "ctx_cloned");
+                }
+            }
+            OpK::DropCtx { c } => {
+                model.ctxs.remove(c);
+            }
+            OpK::Add { c, name, src, .. } | OpK::AddShared { c, name, src } => {
+                if let Some((cl, msg)) = &rep.add_err {
+                    silent = Some("a generated program did not compile".into());
+                    if std::env::var("VERIF_DEBUG").is_ok() {
+                        eprintln!("ADDERR `{}`: {}", src, msg);
+                    }
+                    dkey.push_str(&format!("adderr:{:?}:{};", cl, msg.len()));
+                    break 'ops;
+                }
+                let bc = rep.ctxs.get(c).and_then(|m| m.get(name)).map(|x| x.1).unwrap_or(0);
+                if let Some(m) = model.ctxs.get_mut(c) {
+                    if m.contains_key(name) {
+                        fire(&mut fired, "program_replaced");
+                    }
+                    m.insert(name.clone(), ProgSnap { src: src.clone(), add_ns: now_ns, bc });
+                }
+                if let Some((mine, other)) = &rep.bc_differs_across_instants {
+                    violation = Some(viol(
+                        "now-bytecode",
+                        "compile-instant-in-program",
+                        "the compiled program does not depend on the instant of compilation".into(),
+                        format!("bytecode compiled at {} ns: {}", now_ns, mine.replace('\n', "; ")),
+                        format!("op {}: `{}`; same text compiled one day later on the same thread: {}", i, src, other.replace('\n', "; ")),
+                    ));
+                    break 'ops;
+                }
+            }
+            OpK::NewB { b } => {
+                model.binds.insert(*b, (op.t, BTreeMap::new()));
+                model.funcs.insert(*b, BTreeMap::new());
+            }
+            OpK::CloneB { from, to } => {
+                if let Some((_, m)) = model.binds.get(from).cloned() {
+                    model.binds.insert(*to, (op.t, m));
+                    let f = model.funcs.get(from).cloned().unwrap_or_default();
+                    model.funcs.insert(*to, f);
+                    fire(&mut fired, "bindings_cloned");
+                }
+            }
+            OpK::Bind { b, name, val } => {
+                if let Some((_, m)) = model.binds.get_mut(b) {
+                    if m.insert(name.clone(), val.clone()).is_some() {
+                        fire(&mut fired, "param_rebound");
+                    }
+                }
+            }
+            OpK::BindFunc { b, name, ret } => {
+                if model.binds.contains_key(b) {
+                    model.funcs.entry(*b).or_default().insert(name.clone(), ret.clone());
+                    fire(&mut fired, "function_bound");
+                }
+            }
+            OpK::BindJson { b, vals } => {
+                if rep.add_err.is_some() {
+                    silent = Some("bind_params_from_json_obj refused the object".into());
+                    break 'ops;
+                }
+                if let Some((_, m)) = model.binds.get_mut(b) {
+                    for (k, v) in vals {
+                        m.insert(k.clone(), v.clone());
+                    }
+                    fire(&mut fired, "bound_via_json");
+                }
+            }
+            OpK::Clock { ns } => {
+                let d = ns.wrapping_sub(now_ns);
+                clock_total = clock_total.saturating_add(d.unsigned_abs());
+                fire(&mut fired, if d < 0 { "clock_moved_backwards" } else if d == 0 { "clock_frozen" } else { "clock_moved_forwards" });
+            }
+            OpK::Exec { c, name, b, keys, minimal, .. } => {
+                let progs = match model.ctxs.get(c) {
+                    Some(p) => p.clone(),
+                    None => continue,
+                };
+                let params = match model.binds.get(b) {
+                    Some((_, p)) => p.clone(),
+                    None => continue,
+                };
+                if let Some(prev) = last_exec_thread.insert(*c, op.t) {
+                    if prev != op.t {
+                        fire(&mut fired, "exec_on_migrated_context");
+                    }
+                }
+                if rep.execs.len() > 1 {
+                    fire(&mut fired, "exec_repeated");
+                }
+                let reach = reachable(&progs, name);
+                let clocky = reaches_clock(&progs, &reach);
+                stats.callback_events += rep.execs.len() as u64;
+                // repetition
+                let first = rep.execs[0].0.clone();
+                for (j, (o, _)) in rep.execs.iter().enumerate() {
+                    if !o.same(&first) {
+                        violation = Some(viol("repeat", &format!("{}!={}", kind_of(&first), kind_of(o)), format!("{}", first), format!("{}", o), format!("op {}: exec #{} of `{}` differs from exec #0 (same context, same bindings, same instant)", i, j, progs.get(name).map(|p| p.src.as_str()).unwrap_or("?"))));
+                        break 'ops;
+                    }
+                }
+                dkey.push_str(&format!("{}:{};", kind_of(&first), if clocky { "clk" } else { "pure" }));
+                if prop == WorldProp::C09 {
+                    let src = progs.get(name).map(|p| p.src.trim().to_string()).unwrap_or_default();
+                    let must = case.ops.iter().rev().find_map(|o| match &o.k {
+                        OpK::Add { name: n, src: s, must_read, .. } if *n == *name && progs.get(name).map(|p| p.src == *s).unwrap_or(false) => Some(*must_read),
+                        _ => None,
+                    });
+                    for (o, reads) in rep.execs.iter() {
+                        if src == "now()" || src == "timestamp()" {
+                            fire(&mut fired, "bare_clock_program_executed");
+                            if *o != Outcome::Val(V::Ts(now_ns)) {
+                                violation = Some(viol("now-bare", "not-the-instant-of-exec", format!("ts({}ns) (the simulated instant of this execution)", now_ns), format!("{}", o), format!("op {}: `{}` compiled at {} ns", i, src, progs[name].add_ns)));
+                                break 'ops;
+                            }
+                        }
+                        if must == Some(true) && reach.len() == 1 {
+                            fire(&mut fired, "must_read_program_executed");
+                            if *reads == 0 {
+                                violation = Some(viol("now-reads", "no-clock-read-during-exec", "at least one wall-clock read during an execution that evaluates now()/timestamp()".into(), "0 clock reads".into(), format!("op {}: `{}` compiled at {} ns, executed at {} ns, result {}", i, src, progs[name].add_ns, now_ns, o)));
+                                break 'ops;
+                            }
+                        }
+                    }
+                    if progs.get(name).map(|p| p.add_ns != now_ns).unwrap_or(false) {
+                        fire(&mut fired, "exec_at_other_instant_than_compile");
+                    }
+                } else if !clocky {
+                    if let Some((_, reads)) = rep.execs.iter().find(|(_, r)| *r > 0) {
+                        violation = Some(viol("clock-purity", "clock-read-by-clock-free-program", "0 wall-clock reads".into(), format!("{} reads", reads), format!("op {}: `{}` reaches neither now() nor timestamp()", i, progs.get(name).map(|p| p.src.as_str()).unwrap_or("?"))));
+                        break 'ops;
+                    }
+                }
+                // twin
+                let list: Vec<(String, String, i64)> = progs
+                    .iter()
+                    .filter(|(n, _)| !*minimal || reach.contains(*n))
+                    .map(|(n, p)| (n.clone(), p.src.clone(), p.add_ns))
+                    .collect();
+                if *minimal && list.len() < progs.len() {
+                    fire(&mut fired, "twin_without_unreachable_programs");
+                }
+                // a clock-free program is also moved in time: only the clock may differ and it
+                // must not matter
+                let exec_ns = if clocky { now_ns } else { now_ns.wrapping_add(777_000_000_123) };
+                let funcs = model.funcs.get(b).cloned().unwrap_or_default();
+                let tw = run_twin(*keys, list, params, funcs, name.clone(), exec_ns, prop != WorldProp::C09);
+                fire(&mut fired, "twin_on_fresh_thread");
+                if let Some(e) = tw.compile_err {
+                    violation = Some(viol("twin", "compile", "the stored texts compile in a fresh context as they did in the original".into(), e, format!("op {}", i)));
+                    break 'ops;
+                }
+                let t = tw.outcome.unwrap();
+                if !t.same(&first) {
+                    let mut sub = format!("{}!={}", kind_of(&first), kind_of(&t));
+                    if prop == WorldProp::C09 {
+                        sub = format!("frozen-clock:{}", sub);
+                    }
+                    violation = Some(viol(
+                        if prop == WorldProp::C09 { "now-twin" } else { "twin" },
+                        &sub,
+                        format!("{} (fresh context + fresh bindings built from the model, fresh thread, other hash keys{})", t, if prop == WorldProp::C09 { ", compiled at the instant of execution" } else { "" }),
+                        format!("{}", first),
+                        format!("op {}: exec `{}` = `{}` on client {} at {} ns (compiled at {} ns)", i, name, progs.get(name).map(|p| p.src.as_str()).unwrap_or("<no such program>"), op.t, now_ns, progs.get(name).map(|p| p.add_ns).unwrap_or(0)),
+                    ));
+                    break 'ops;
+                }
+                if let Outcome::Val(V::List(_)) = &first {
+                    if progs.get(name).map(|p| p.src.contains("map(") || p.src.contains("filter(")).unwrap_or(false) {
+                        fire(&mut fired, "list_result_of_macro_compared_with_twin");
+                    }
+                }
+            }
+            OpK::Expect { c, name, b, keys, want } => {
+                let progs = match model.ctxs.get(c) {
+                    Some(p) => p.clone(),
+                    None => continue,
+                };
+                if model.binds.get(b).is_none() {
+                    continue;
+                }
+                let _ = keys;
+                let o = rep.execs[0].0.clone();
+                dkey.push_str(&format!("{}:{};", case.label, kind_of(&o)));
+                let ok = match (want, &o) {
+                    (Want::Val(v), Outcome::Val(x)) => v == x,
+                    (Want::Fail, Outcome::Fail(..)) => true,
+                    (Want::ValOrFail(v), Outcome::Val(x)) => v == x,
+                    (Want::ValOrFail(_), Outcome::Fail(..)) => true,
+                    (Want::AnyType, Outcome::Val(V::Type(_))) => true,
+                    _ => false,
+                };
+                fire(&mut fired, &format!("expect_{}", case.label));
+                if !ok {
+                    let exp = match want {
+                        Want::Val(v) => format!("{}", v),
+                        Want::Fail => "a failure (error result)".into(),
+                        Want::ValOrFail(v) => format!("{} or a failure", v),
+                        Want::AnyType => "a type value (the built-in type of that name)".into(),
+                    };
+                    let got = match &o {
+                        Outcome::Fail(c, _) => format!("failure-{:?}", c),
+                        other => kind_of(other).to_string(),
+                    };
+                    violation = Some(viol("resolve", &format!("{}:{}", case.label, got), exp, format!("{}", o), format!("op {}: exec `{}` = `{}`", i, name, progs.get(name).map(|p| p.src.as_str()).unwrap_or("<no such program>"))));
+                    break 'ops;
+                }
+            }
+        }
+        // ---- O-frozen: every live context and every binding set of this thread equals the model
+        for (c, m) in model.ctxs.iter() {
+            let obs = rep.ctxs.get(c).cloned().unwrap_or_default();
+            for n in universe.iter() {
+                let want = m.get(n);
+                let got = obs.get(n);
+                let same = match (want, got) {
+                    (None, None) => true,
+                    (Some(w), Some((src, bc))) => w.src == *src && w.bc == *bc,
+                    _ => false,
+                };
+                if !same {
+                    violation = Some(viol(
+                        "frozen",
+                        "stored-program-changed",
+                        format!("context c{} program `{}`: {}", c, n, want.map(|w| format!("`{}`", w.src)).unwrap_or("absent".into())),
+                        got.map(|(s, bc)| format!("`{}` (bytecode digest {:x})", s, bc)).unwrap_or("absent".into()),
+                        format!("after op {} {:?}", i, op.k),
+                    ));
+                    break 'ops;
+                }
+            }
+        }
+        for (b, (owner, m)) in model.binds.iter() {
+            if *owner != op.t {
+                continue;
+            }
+            let obs = rep.binds.get(b).cloned().unwrap_or_default();
+            for n in universe.iter() {
+                let want = m.get(n);
+                let (got, bound) = obs.get(n).cloned().unwrap_or((None, false));
+                // is_bound also reports built-in functions and macros of that name
+                let ok = match want {
+                    Some(w) => got.as_ref() == Some(w),
+                    None => got.is_none(),
+                };
+                if !ok {
+                    violation = Some(viol(
+                        "frozen",
+                        if want.is_none() { "binding-appeared" } else { "binding-changed" },
+                        format!("binding set b{} `{}`: {}", b, n, want.map(|w| format!("{}", w)).unwrap_or("unbound".into())),
+                        format!("{} (is_bound={})", got.map(|g| format!("{}", g)).unwrap_or("unbound".into()), bound),
+                        format!("after op {} {:?}", i, op.k),
+                    ));
+                    break 'ops;
+                }
+            }
+        }
+        // abstract state after the operation
+        let mut st = String::new();
+        for (c, m) in model.ctxs.iter() {
+            st.push_str(&format!("c{}:", c));
+            for (n, p) in m {
+                st.push_str(&format!("{}={};", n, fnv(p.src.as_bytes())));
+            }
+        }
+        for (b, (o, m)) in model.binds.iter() {
+            st.push_str(&format!("b{}@{}:", b, o));
+            for (n, v) in m {
+                st.push_str(&format!("{}={};", n, v));
+            }
+        }
+        states.push(fnv(st.as_bytes()));
+    }
+
+    for (tx, _, _) in chans.iter() {
+        let _ = tx.send(Req::Quit);
+    }
+    for (_, _, h) in chans {
+        let _ = h.join();
+    }
+    stats.silent = silent;
+    stats.fired = fired;
+    stats.states = states;
+    stats.sim_time_ns = clock_total;
+    stats.distinct_key = fnv(format!("{}|{}", case_skeleton(&serde_json::to_value(case).unwrap()), dkey).as_bytes());
+    RunResult { stats, violation, case_override: None }
+}
+
+// ---------------------------------------------------------------------------------------------
+// engine
+// ---------------------------------------------------------------------------------------------
+
+pub struct WorldEngine {
+    pub prop: WorldProp,
+}
+
+fn env_u64(name: &str) -> Option<u64> {
+    std::env::var(name).ok().and_then(|s| s.parse().ok())
+}
+
+impl Engine for WorldEngine {
+    fn property(&self) -> &'static str {
+        self.prop.id()
+    }
+    fn engine_name(&self) -> &'static str {
+        "world"
+    }
+    fn plan(&self, thorough: bool) -> (u64, u64) {
+        let rnd = env_u64("VERIF_RANDOM_CASES");
+        match self.prop {
+            WorldProp::C09 => (gen::c09_enumerated(), rnd.unwrap_or(if thorough { 400_000 } else { 12_000 })),
+            WorldProp::C11 => (0, rnd.unwrap_or(if thorough { 600_000 } else { 8_000 })),
+            WorldProp::C12 => (gen::c12_enumerated(thorough), rnd.unwrap_or(if thorough { 400_000 } else { 12_000 })),
+        }
+    }
+    fn enumerated_exhaustive(&self) -> bool {
+        false
+    }
+    fn case(&self, k: u64, seed: u64, thorough: bool) -> J {
+        serde_json::to_value(gen::case(self.prop, k, seed, thorough)).unwrap()
+    }
+    fn check(&self, case: &J) -> Result<RunResult, String> {
+        let c: WorldCase = serde_json::from_value(case.clone()).map_err(|e| format!("bad world case: {e}"))?;
+        Ok(run_case(self.prop, &c))
+    }
+    fn variants(&self, case: &J) -> Vec<J> {
+        let c: WorldCase = match serde_json::from_value(case.clone()) {
+            Ok(c) => c,
+            Err(_) => return vec![],
+        };
+        let mut out: Vec<WorldCase> = vec![];
+        let n = c.ops.len();
+        // drop halves, quarters, then single operations
+        let mut chunk = n / 2;
+        while chunk >= 1 {
+            let mut s = 0;
+            while s < n {
+                let mut d = c.clone();
+                let e = (s + chunk).min(n);
+                d.ops.drain(s..e);
+                out.push(d);
+                s += chunk;
+            }
+            if chunk == 1 {
+                break;
+            }
+            chunk /= 2;
+        }
+        // one client thread only
+        if c.clients.len() > 1 {
+            let mut d = c.clone();
+            d.clients.truncate(1);
+            for o in d.ops.iter_mut() {
+                o.t = 0;
+            }
+            out.push(d);
+        }
+        for (i, o) in c.ops.iter().enumerate() {
+            match &o.k {
+                OpK::Exec { times, minimal, .. } => {
+                    if *times > 1 {
+                        let mut d = c.clone();
+                        if let OpK::Exec { times, .. } = &mut d.ops[i].k {
+                            *times = 1;
+                        }
+                        out.push(d);
+                    }
+                    if !*minimal {
+                        let mut d = c.clone();
+                        if let OpK::Exec { minimal, .. } = &mut d.ops[i].k {
+                            *minimal = true;
+                        }
+                        out.push(d);
+                    }
+                }
+                OpK::AddShared { c: cc, name, src } => {
+                    let mut d = c.clone();
+                    d.ops[i].k = OpK::Add { c: *cc, name: name.clone(), src: src.clone(), must_read: false };
+                    out.push(d);
+                }
+                OpK::BindJson { b, vals } if vals.len() == 1 => {
+                    let mut d = c.clone();
+                    let (k, v) = vals.iter().next().unwrap();
+                    d.ops[i].k = OpK::Bind { b: *b, name: k.clone(), val: v.clone() };
+                    out.push(d);
+                }
+                _ => {}
+            }
+        }
+        let cur = self.case_size(case);
+        let mut vs: Vec<J> = out.into_iter().map(|v| serde_json::to_value(v).unwrap()).collect();
+        vs.retain(|v| self.case_size(v) < cur);
+        vs.sort_by_key(|v| self.case_size(v));
+        vs
+    }
+    fn case_size(&self, case: &J) -> usize {
+        match serde_json::from_value::<WorldCase>(case.clone()) {
+            Ok(c) => {
+                c.ops.len() * 100
+                    + c.clients.len() * 10
+                    + c.ops
+                        .iter()
+                        .map(|o| match &o.k {
+                            OpK::Exec { times, minimal, .. } => *times as usize + if *minimal { 0 } else { 1 },
+                            OpK::AddShared { .. } | OpK::BindJson { .. } => 1,
+                            _ => 0,
+                        })
+                        .sum::<usize>()
+            }
+            Err(_) => usize::MAX,
+        }
+    }
+    fn isolate(&self) -> bool {
+        self.prop == WorldProp::C12
+    }
+    fn level(&self) -> &'static str {
+        "exploration"
+    }
+    fn rule(&self) -> String {
+        match self.prop {
+            WorldProp::C09 => "time clause only. Seeded histories {new/clone context, add program (text reaching now()/timestamp() in every position: bare, arithmetic, accessor receiver, macro body and range, call argument, f-string, taken and untaken ?:/||/&& branches, behind a stored-program reference), clock move (+1 ns, seconds, days, years, backwards, boundary instants), exec x1..3} over 1..4 client threads; every program is compiled at one instant and executed at others. Oracles: bare now()/timestamp() returns exactly the simulated instant of the exec; result equals that of the same texts compiled and executed at the exec instant on a fresh thread; an exec whose evaluated path contains the call reads the clock; the bytecode does not depend on the compile instant. Distinct by hash(op-kind sequence, outcome kinds); non-trivial when a clock move, clone, migration or other probe fired".into(),
+            WorldProp::C11 => "seeded operation histories over {new/clone/drop context, add / replace program (add_program_str and shared Program), new/clone bindings, bind / rebind (direct and from JSON), exec x1..3, clock move} on 1..4 (rarely up to 16) client threads with simulator-chosen hash keys, one thread runnable at a time; program texts aimed at carried state: macros over literal/bound maps and lists, loop variables re-using outer names, reduce, references between stored programs, has/coalesce, f-strings, now()/timestamp(). Oracles after every exec: repeat (k executions agree), twin (fresh context+bindings built from the model on a fresh thread with other hash keys, at another instant when the program cannot reach the clock), clock-purity (no clock read by clock-free programs); after every operation: frozen (every stored program's source and bytecode, every binding of every live object equals the model; clones are separate model objects). Distinct by hash(op-kind sequence, outcome kinds per exec); non-trivial when any probe fired".into(),
+            WorldProp::C12 => "scenario families, each a short history ending in observed execs with an expectation the scenario generator derives without evaluating CEL: name collisions (type vs variable vs program; bound function vs macro vs type constructor; map field vs method), replace/rebind then exec, JSON-bound vs directly bound values, reference chains 1..64 through every referencing construct, cycles (self, mutual, through macro bodies, call arguments, has/coalesce, f-strings), long loops over a chain; run on default-size (2 MiB) thread stacks in worker processes whose death is an outcome".into(),
+        }
+    }
+    fn assumptions(&self) -> Vec<String> {
+        vec![
+            "operation granularity is exact: rscel has no global, lock or atomic (seam inventory re-checked on every run), exec takes &mut CelContext, BindContext is not Send".into(),
+            "std draws per-thread hash keys through getrandom and chrono reads CLOCK_REALTIME through clock_gettime (both checked by the start-up canary)".into(),
+            "results are compared in canonical form: maps by sorted key, floats by bit pattern, failures by class (the statements speak of results, not wording)".into(),
+            "the reference graph between stored programs is over-approximated by identifier occurrence".into(),
+            "a clean batch is evidence, not proof".into(),
+        ]
+    }
 }
